@@ -24,11 +24,7 @@ type B2 struct{ F0 string }
 type c08Q struct {
 	UB0, UB1, UB2, UItem, ULine interface{}
 	NB0, NB1, NB2, NItem, NLine interface{}
-	OB0                         *B0
-	OB1                         *B1
-	OB2                         *B2
-	OItem                       *ItemC08
-	OLine                       *LineItemC08
+	OB0, OB1, OB2, OItem, OLine interface{}
 }
 
 type c08Top struct{ Query *c08Q }
@@ -147,8 +143,20 @@ func c08Binding(o *Out, r *Rng) {
 			doc = "{ " + field + " { f0 } }"
 			pos = N("o", S(ob.gql))
 		}
+		// the value reaches the position as a pointer or as a plain struct value: one Go type, one object type
+		form := "pointer"
+		{
+			v := c08Value(ob.suffix)
+			rv := reflect.ValueOf(v)
+			if r.Chance(35) {
+				rv = rv.Elem()
+				form = "value"
+			}
+			qv.FieldByName(strings.ToUpper(field[:1]) + ob.suffix).Set(rv)
+		}
+		o.Count("binding-value-form=" + form)
 		res := safeResolve(root, doc, "", nil)
-		hist = append(hist, doc+" -> "+fmt.Sprint(res))
+		hist = append(hist, doc+" ("+form+") -> "+fmt.Sprint(res))
 		evs = append(evs, N("ev", pos, gt))
 		out := A("other")
 		data, _ := res["data"].(map[string]interface{})
